@@ -14,7 +14,7 @@ fn main() {
     eprintln!("user GM = {}", token_balance(&w, &ata(&u, &mt)));
     assert!(post_prices(&mut w, d, &[10_000; 3]));
     let pos = a.positions[0][0][0];
-    let out = w.process(stake_ix(d, a, &u, 0, &pos, 0, 1_000_000_000_000));
+    let out = w.process(stake_ix(d, a, &u, &a.gm_atas[0][0], 0, &pos, 0, 1_000_000_000_000));
     eprintln!("stake: {} {:?} {:?} ev={:?}", out.class(), out.panic, out.runtime_rule, market_token_value_event(&out));
     let p = read_position(&w, &pos.0).unwrap();
     eprintln!("pos amount={} value={} start={} cum={}", p.staked_amount, p.staked_value_usd, p.stake_start_time, p.cum_inv_cost);
@@ -27,9 +27,9 @@ fn main() {
     eprintln!("enable: {}", out.class());
     let out = w.process(claim_ix(d, a, &u, &a.gt_users[0], 0, &pos, 0));
     eprintln!("claim: {} gt={}", out.class(), user_gt_amount(&w, &a.gt_users[0]));
-    let out = w.process(unstake_ix(d, a, &u, &a.gt_users[0], 0, &pos, 0, 400_000_000_000));
+    let out = w.process(unstake_ix(d, a, &u, &a.gt_users[0], &a.gm_atas[0][0], 0, &pos, 0, 400_000_000_000));
     eprintln!("partial: {} vault={}", out.class(), token_balance(&w, &pos.1));
-    let out = w.process(unstake_ix(d, a, &u, &a.gt_users[0], 0, &pos, 0, 600_000_000_000));
+    let out = w.process(unstake_ix(d, a, &u, &a.gt_users[0], &a.gm_atas[0][0], 0, &pos, 0, 600_000_000_000));
     eprintln!("full: {} pos exists={} vault exists={}", out.class(), w.get(&pos.0).is_some(), w.get(&pos.1).is_some());
     let t0 = std::time::Instant::now();
     for _ in 0..1000 { let _ = w.clone(); }
